@@ -19,7 +19,8 @@ def check_c02(case, ctx):
     kind = cfg["kind"]
     n = len(teams)
     model = mk_model(cfg)
-    objs = mk_teams(model, teams, names=True)
+    clones = call.get("clone_ids")  # distinct objects sharing one id (deepcopy clones of a template): only the names tell them apart
+    objs = mk_teams(model, teams, names=True, clone_ids=clones)
     ids = [[p.id for p in t] for t in objs]
     names = [[p.name for p in t] for t in objs]
     prior = [[(p.mu, p.sigma) for p in t] for t in objs]
@@ -44,9 +45,10 @@ def check_c02(case, ctx):
                 where = [(a, b) for a in range(n) for b in range(len(ids[a])) if ids[a][b] == r.id]
                 raise Violation("identity:moved" if where else "identity:lost",
                                 f"{kind} call={call}: result[{i}][{j}] carries id/name {r.id[:8]}/{r.name}, input slot had {ids[i][j][:8]}/{names[i][j]} (that id was passed at {where})")
-            if r.id in seen:
-                raise Violation("identity:duplicated", f"{kind}: id {r.id[:8]} appears twice in the result")
-            seen.add(r.id)
+            key = (r.id, r.name) if clones else r.id
+            if key in seen:
+                raise Violation("identity:duplicated", f"{kind}: id {r.id[:8]} ({r.name}) appears twice in the result")
+            seen.add(key)
     # (e) all-or-nothing on the objects that were passed in
     touched = [[(p.mu, p.sigma) != prior[i][j] for j, p in enumerate(t)] for i, t in enumerate(inputs)]
     equal_ret = [[(p.mu, p.sigma) == (res[i][j].mu, res[i][j].sigma) for j, p in enumerate(t)] for i, t in enumerate(inputs)]
